@@ -24,6 +24,9 @@ TReq == /\ IsEv("req")
                      ELSE LET k == CHOOSE k \in R : TRUE IN /\ e.ids = flat[k].hs /\ (flat[k].hs # <<>> => e.route = flat[k].path) /\ e.status # 404
                                                       \* like the flat registration: every handler of the chain is wrapped, once
                                                       /\ (hw => e.nw = Len(flat[k].hs))
+                                                      \* the final action saw the request as it came in and answered it; a HEAD
+                                                      \* request gets no body bytes, however its route was added (AutoHead twin)
+                                                      /\ e.seen_m = e.m /\ e.bodylen = (IF e.m = "HEAD" THEN 0 ELSE 4)
            IN Verdict(IF ok THEN "ok" ELSE "bad")
         /\ UNCHANGED <<flat, hw>>
 TNext == TReset \/ TProg \/ TReq
